@@ -277,12 +277,14 @@ where
 
 fn make_abbreviated_namespace(namespace: &str, existing_namespaces: &[Rc<Namespace>]) -> String {
     fn take_three_chars_max(namespace: &str) -> String {
-        namespace.chars().filter(|c| c != &'.').take(3).collect()
+        // only characters that can be part of an XML prefix and of a Rust identifier
+        namespace.chars().filter(|c| c.is_alphanumeric()).take(3).collect()
     }
 
     let mut append: Option<u8> = None;
 
-    let abbreviation = if let Some(last_segment) = namespace.split('/').next_back() {
+    // a trailing slash leaves an empty last segment: take the last one that has a name in it
+    let abbreviation = if let Some(last_segment) = namespace.split('/').rfind(|s| !s.is_empty()) {
         if let Some(slashed) = last_segment.split('-').next_back() {
             take_three_chars_max(slashed)
         } else {
@@ -293,6 +295,12 @@ fn make_abbreviated_namespace(namespace: &str, existing_namespaces: &[Rc<Namespa
     };
 
     let abbreviation = abbreviation.to_lowercase();
+    // a prefix (and the module named after it) has to start with a letter
+    let abbreviation = if abbreviation.chars().next().is_some_and(char::is_alphabetic) {
+        abbreviation
+    } else {
+        format!("ns{abbreviation}")
+    };
 
     loop {
         let use_abbreviation = if let Some(append) = append {
